@@ -63,6 +63,14 @@ def templates():
     T["ilist-foldl-into-empty-list"] = main(angles + "    r = ilist.foldl(kick, angles, [])\n    return r\n", kick + to_angle)
     T["ilist-foldr-into-empty-list"] = main(angles + "    r = ilist.foldr(rkick, angles, [])\n    return r\n", kick + to_angle)
     T["ilist-scan-into-empty-list"] = main(angles + "    r = ilist.scan(kick2, angles, [])\n    return r\n", kick + to_angle)
+    # classical statements of OTHER dialects that share a name with a device-visible one (filled.fill / init.fill ...) analysed first
+    T["after-filled-grid-statements"] = main("    fg = filled.fill(z0, [(0, 0), (n, 0)])\n    fv = filled.vacate(fg, [(1, n)])\n    fs = filled.shift(fv, 1.0, 0.0)\n    {X}\n    return fs\n")
+    T["subroutine-with-filled-grid-statements-first"] = main("    fg = prep(n)\n    {X}\n    return fg\n",
+                                                             "@move\ndef prep(m: int):\n" + PRO + "    return filled.fill(z0, [(0, 0), (m, 0)])\n\n")
+    # device tasks that are built and reversed but never played
+    T["builds-device-tasks-without-playing"] = main("    f = schedule.device_fn(kk, ilist.range(n), [0])\n    r = schedule.reverse(f)\n    {X}\n    return r\n")
+    T["factory-of-device-tasks"] = main("    r = factory(n)\n    {X}\n    return r\n",
+                                        "@move\ndef factory(m: int):\n    f = schedule.device_fn(kk, ilist.range(m), [0])\n    return schedule.reverse(f)\n\n")
     T["closure-never-called"] = main("    def inner(k: int):\n        {X}\n        return k\n    return inner\n")
     two = ("@move\ndef pick(c: bool):\n    def a(k: int):\n        return k\n    def b(k: int):\n        return k + 1\n    if c:\n        return a\n    return b\n\n")
     T["after-dynamic-call"] = main("    g = pick(c)\n    r = g(n)\n    {X}\n", two)
@@ -299,7 +307,8 @@ def run(ctx):
     stmts = list(DEV.items()) + [("quiet", QUIET)]
     if ctx.quick:
         # every position with two device statements and the quiet one; every statement at three positions
-        keep = {(t, s) for t in T for s in ("cz", "play", "quiet")} | {(t, s) for t in ("top", "loop2-carried", "subroutine") for s, _ in stmts}
+        keep = {(t, s) for t in T for s in ("cz", "play", "quiet")} | {(t, s) for t in ("top", "loop2-carried", "subroutine", "after-filled-grid-statements",
+                                                                                  "subroutine-with-filled-grid-statements-first") for s, _ in stmts}
     else:
         keep = {(t, s) for t in T for s, _ in stmts}
     for tname, tsrc in T.items():
